@@ -8,7 +8,7 @@ RULE = ('Engine A: FULL/DEV configuration spaces x n_designs in {1,2,5,50}; per 
         'enumeration of ALL legal designs over the admitted geos (itertools.product over per-geo options), constraints '
         'from raw data, score tuple composed by the oracle from fresh library diagnostics on reference series. '
         'THRESH: budget/share/volume bounds between every two consecutive critical values; REUSE: the same configurations '
-        'on a data object that already served another matched-markets object; WEAK: weakly correlated panels x min_corr in {0.8,0.95,0.999} x k (designs that fail the correlation test compete on their other verdicts); UNITS: DEV(4,1) on the panel scaled by 2^20 and 2^-20. Asserted: result subset of feasible set, distinct, |R| >= min(k,|F_must|), no non-exempt feasible design '
+        'on a data object that already served another matched-markets object; SHARE-ORDER: share thresholds on a panel where lexicographic group order is not share order; WEAK: weakly correlated panels x min_corr in {0.8,0.95,0.999} x k (designs that fail the correlation test compete on their other verdicts); UNITS: DEV(4,1) on the panel scaled by 2^20 and 2^-20. Asserted: result subset of feasible set, distinct, |R| >= min(k,|F_must|), no non-exempt feasible design '
         'outside R scores higher than the worst of R, non-increasing order. Exemption read generously (any subset '
         'S of T containing the fixed treatment geos with optimistic budget outside the range). Non-trivial = '
         '|F_must| > k (something had to be left out); distinct = distinct case.')
@@ -34,6 +34,9 @@ def cases(tier, seed):
         out += list(spaces.with_methods(spaces.dev_configs(dict(pB4, scale_pow=k), 1, ['treatment_geos_range', 'n_geos_max', 'n_designs', 'budget_range'],
                                                            base_kw={'n_designs': 2}, k_values=(1, 5), with_matrix_level=False),
                                         ('exhaustive_search',)))
+    # share thresholds on the share-DRIFT panel, whose volume ranking is not geometric: a later treatment group of a size can
+    # have a LARGER share than an earlier one ({0,3} < {1,2}), so "all following groups are smaller still" is false
+    out += spaces.threshold_space({'name': 'D', 'G': 4, 'T': 12}, methods=('exhaustive_search',), base_kw={'n_designs': 3}, parts=('share',))
     out += spaces.weak_space(seeds=(0, 1, 5) if tier != 'thorough' else (0, 1, 2, 3, 5, 6))
     out += spaces.reuse_space(pB4, INCLUDE, {'n_designs': 2}, methods=('exhaustive_search',), d=2 if tier == 'thorough' else 1)
     return out
